@@ -4,7 +4,10 @@ pub mod restrictions;
 pub mod simple;
 pub mod writer;
 
-use super::{TryFromNode, field::RustFieldType};
+use super::{
+    TryFromNode,
+    field::{RustFieldType, as_type_name},
+};
 use crate::{
     error::{WriterError, WriterResult},
     model::{Namespace, doc::RustDocument, field::Field},
@@ -12,7 +15,6 @@ use crate::{
 };
 use complex::ComplexProps;
 use element::{ElementProps, ElementType};
-use inflector::cases::pascalcase::to_pascal_case;
 use roxmltree::Node;
 use simple::SimpleProps;
 use std::{io, rc::Rc};
@@ -59,5 +61,5 @@ fn parse_comment<'n>(node: Node<'n, 'n>) -> Option<String> {
 }
 
 pub fn xml_name_to_rust_name(xml_name: &str) -> String {
-    to_pascal_case(xml_name)
+    as_type_name(xml_name)
 }
